@@ -466,8 +466,10 @@ package rapid
 // store to them respects the transition invariant below (whatever other goroutines did in between).
 //@ guarded T.failed, T.cleanups, T.ctx, T.cancelCtx by mu
 //@ transition T.failed [C02,C14]: old == "" || new != ""
-//@ transition T.ctx [C10,C14]: old == nil || new == nil
-//@ transition T.cancelCtx [C10,C14]: old == nil || new == nil
+// A context is cleared only in the cleanup phase (flag raised first: a concurrent Context() that finds the field
+// empty then sees the flag and hands out a cancelled context instead of installing a second live one).
+//@ transition T.ctx [C10,C14]: (old == nil || new == nil) && implies(old != nil && new == nil, self.cleaning.v != 0)
+//@ transition T.cancelCtx [C10,C14]: (old == nil || new == nil) && implies(old != nil && new == nil, self.cleaning.v != 0)
 
 //@ func (*T).shouldLog
 //@   ensures result == (t.rawLog != nil || t.tbLog)
@@ -589,8 +591,20 @@ package rapid
 //@   ensures [C02] (result == nil) == (p == nil)
 //@   ensures [C02] implies(result != nil, fresh(result) && result.data == p)
 
+// propFalsified: the property function itself ended by a panic that is not a skip (invalid data).
+// cleanupSkipped: the cleanup phase of that test case ended by a skip (invalid data) raised from a cleanup callback.
+//@ ghost propFalsified Bool
+//@ ghost cleanupSkipped Bool
+
 //@ func checkOnce
 //@   noframe "runs the property function"
+//@   at prop#0 set propFalsified = false
+//@   at prop#0 onpanic propFalsified = !isInvalidData(panicval)
+//@   at prop#0 set cleanupSkipped = false
+//@   at prop#0 onpanic cleanupSkipped = false
+//@   at t.cleanup#0 onpanic cleanupSkipped = isInvalidData(panicval)
+//@   ensures [C02] implies(propFalsified && !cleanupSkipped, result != nil && !isInvalidData(result.data))
+//@   ensures [C02] implies(propFalsified && cleanupSkipped, result != nil && !isInvalidData(result.data))
 //@   requires [C10,C11] clean(t) && unlocked(t) && prop != nil
 //@   ensures [C10,C11] len(t.cleanups) == 0 && t.ctx == nil && t.cancelCtx == nil && !cleaning(t) && unlocked(t)
 //@   ensures [C02,C11] implies(result == nil, t.failed == "")
@@ -599,7 +613,7 @@ package rapid
 //@   ensures [C05] implies(result != nil, result.traceback != "    <no error>\n")
 //@   ensures drawn >= old(drawn)
 //@   ensures [C05] streamRely(t.s)
-//@   modifies t.failed, t.cleanups, elems(t.cleanups), t.ctx, t.cancelCtx, t.cleaning.v, t.draws, drawn, lockmode[addr(t.mu)], stream(t.s)
+//@   modifies t.failed, t.cleanups, elems(t.cleanups), t.ctx, t.cancelCtx, t.cleaning.v, t.draws, drawn, lockmode[addr(t.mu)], stream(t.s), propFalsified, cleanupSkipped
 
 // ---------------------------------------------------------------------------------------------
 // combinators.go: Custom
@@ -620,6 +634,8 @@ package rapid
 // pendingCheck: an action has completed (or Repeat has just started) and the invariant has not been run since.
 
 //@ ghost pendingCheck Bool
+// drawnAtAction: value of the ghost draw counter when the current action was chosen (executeAction)
+//@ ghost drawnAtAction Int
 
 //@ func runAction
 //@   noframe "calls the user's action"
@@ -650,6 +666,12 @@ package rapid
 //@   modifies drawn, t.failed, t.cleanups, elems(t.cleanups), t.ctx, t.cancelCtx, t.draws, lockmode[addr(t.mu)], stream(t.s)
 //@   loop 0 invariant [C08] 0 <= n && n <= validActionTries && t.failed == "" && unlocked(t) && drawn >= old(drawn)
 //@   loop 0 decreases validActionTries - n
+//   Replay discipline (C04): a skipped action is a rejected attempt. If it has consumed bits (a Draw that gave up
+//   after retries), tries inside it are marked discard; unless its own group is marked too, the pruned replay runs
+//   the same action again on bits that belong to what followed.
+//@   at sm.actionKeys.Draw#0 set drawnAtAction = drawn
+//@   at t.s.endGroup#0 assert [C04] implies(skipped && drawn > drawnAtAction, arg1)
+//@   modifies drawnAtAction
 
 //@ func (*T).Repeat
 //@   noframe "calls user actions and the invariant"
@@ -728,7 +750,8 @@ package rapid
 //@   noframe "only ghost file-system state and fresh strings"
 //@   ensures [C16] implies(result == nil, fsRenamed)
 //@   ensures [C16] implies(fsRenamed != old(fsRenamed), fsClosed)
-//@   modifies fsWritten, fsClosed, fsRenamed, fsTmpName, fsTmpDir, fsRenamedAtCreate
+//@   ensures [C16] old(fsRenames) <= fsRenames && fsRenames <= old(fsRenames) + 1
+//@   modifies fsWritten, fsClosed, fsRenamed, fsTmpName, fsTmpDir, fsRenamedAtCreate, fsRenames
 //@   at os.CreateTemp#0 assert [C06,C16] arg1 == ".rapid-failfile-tmp-*" && arg0 == dir
 //@   at os.Rename#0 assert [C16] fsClosed && arg0 == fsTmpName && arg1 == filename && fsTmpDir == dir
 //@   loop 0 invariant [C16] !fsClosed && fsRenamed == old(fsRenamed) && fsRenamed == fsRenamedAtCreate && fsTmpDir == dir && -1 <= rangeindex && rangeindex < len(out)
@@ -775,6 +798,9 @@ package rapid
 //@ func baseSeed
 //@   ensures [C07,C18] implies(flags.seed != 0, result == flags.seed)
 
+// capturedOut: the backing array of the output captured by the most recent captureTestOutput in checkTB
+//@ ghost capturedOut Ref
+
 //@ func captureTestOutput
 //@   noframe "runs the property"
 //@   requires prop != nil
@@ -789,8 +815,11 @@ package rapid
 //@   ensures [C02,C09] !tbFailed && now(err1) == nil && now(err2) == nil
 //@   ensures [C09] now(valid) == now(checks) || now(earlyExit) && now(valid) > 0
 //@   ensures [C09] tbErrors == old(tbErrors)
-//@   panics goexit [C02,C09]: tbFailed && tbErrors == old(tbErrors) + 1
-//@   modifies heap, drawn, runs, lastInit, searched, sawFailure, lockmode, cancelled, tbFailed, tbErrors, fsWritten, fsClosed, fsRenamed, fsTmpName, fsTmpDir, fsRenamedAtCreate, runesWritten
+//@   panics goexit [C02,C06,C09,C16]: tbFailed && tbErrors == old(tbErrors) + 1 && fsRenames <= old(fsRenames) + 1
+//@   ensures [C06,C16] fsRenames <= old(fsRenames) + 1
+//@   modifies heap, drawn, runs, lastInit, searched, sawFailure, lockmode, cancelled, tbFailed, tbErrors, fsWritten, fsClosed, fsRenamed, fsTmpName, fsTmpDir, fsRenamedAtCreate, fsRenames, runesWritten, capturedOut
+//@   at captureTestOutput#0 set capturedOut = arr(result)
+//@   at saveFailFile#0 assert [C06,C16] fsRenames == old(fsRenames) && arr(arg2) == capturedOut
 //@   at saveFailFile#0 assert [C06] arg3 == seed && arr(arg4) == arr(buf) && len(arg4) == len(buf) && arg1 == rapidVersion
 //@   at newBufBitStream#0 assert [C01,C06] arr(arg0) == arr(buf) && len(arg0) == len(buf) && !arg1
 //@   at captureTestOutput#0 assert [C06] arr(arg2) == arr(buf) && len(arg2) == len(buf)
@@ -1083,3 +1112,25 @@ package rapid
 //@ func MakeCheck$1
 //@   captures [C13] prop
 //@   trusted "only the closure frame is checked; the body is checkTB"
+
+// ---------------------------------------------------------------------------------------------
+// generator.go: Example (C10: the T used for an example is cleaned up however the generator ends;
+// C04/C07: an explicit seed is used verbatim, with a non-persisting PRNG stream)
+
+//@ func example
+//@   noframe "runs the generator implementation, which may run user code"
+//@   requires [C10] clean(t) && unlocked(t) && g != nil
+//@   ensures [C10] len(t.cleanups) == 0 && t.ctx == nil && t.cancelCtx == nil && !cleaning(t) && unlocked(t)
+//@   ensures [C10] 1 <= result1 && result1 <= exampleMaxTries
+//@   panics any [C10]: len(t.cleanups) == 0 && t.ctx == nil && t.cancelCtx == nil && !cleaning(t) && unlocked(t)
+//@   modifies drawn, t.failed, t.cleanups, elems(t.cleanups), t.ctx, t.cancelCtx, t.cleaning.v, t.draws, cancelled, lockmode[addr(t.mu)], stream(t.s)
+//@   loop 0 invariant [C10] 1 <= i && i <= exampleMaxTries && unlocked(t) && ctxInv(t) && !cleaning(t)
+
+//@ func (*Generator).Example
+//@   noframe "runs the generator implementation"
+//@   requires g != nil
+//@   panics any: true
+//@   at example#0 assert [C10] clean(arg1) && unlocked(arg1) && fresh(arg1)
+//@   at example#0 assert [C04,C07] hasType(arg1.s, randomBitStream) && !deref(arg1.s, randomBitStream).persist
+//@   at newRandomBitStream#0 assert [C04,C07] implies(len(seed) > 0, arg0 == seed[0]) && !arg1
+//@   modifies heap, drawn, lockmode, cancelled
